@@ -136,6 +136,7 @@ type Frame struct {
 	contract *Contract
 	entry    *MemSnap
 	env      map[string]T // param / result names for the contract
+	paramSet map[string]bool
 	top      bool
 }
 
@@ -174,6 +175,7 @@ type Ctx struct {
 	prune     bool
 	usedPures map[string]bool
 	assumedClauses map[string]bool
+	skippedAtReturn map[string]int
 }
 
 func (c *Ctx) freshName(prefix string) string {
